@@ -571,10 +571,10 @@ def _do_extract(raw, i, unitfile, repo_root, out, log, meta, twin=False):
             while mt2[k2] in " \n\t":
                 k2 += 1
             if mt2[k2] != ";":
-                raise ExtractError("@outline_stmt: statement does not end with `;` after its closing brace")
+                k2 = close          # (an item such as a nested `impl .. { .. }`: up to its closing brace)
             li, _ = item._line_index(a)
             lj, _ = item._line_index(k2)
-            item.replace_span(a, k2 + 1, ticks[1])
+            item.replace_span(a, k2 + 1, ticks[1] if len(ticks) > 1 else "")
             log.outlined.append({"item": ex.describe(), "repo_line": item.lines[li].origin[2] if item.lines[li].origin[0] == "repo" else None,
                                  "expression": ticks[0] + f" … }};  ({lj - li + 1} lines)", "replaced_by": ticks[1]})
             log.count("outlined statement (assumed contract)")
